@@ -56,8 +56,11 @@ type Rule struct {
 	Dups    int
 	Mut     *MutSpec // Action "mutate"
 	Skip    int      // let this many matching datagrams pass first
-	skipped int
-	hits    int
+	// ReflectAny: reflect whatever matches (default: only datagrams whose
+	// sequence number is the one their sender expects next from the peer)
+	ReflectAny bool
+	skipped    int
+	hits       int
 }
 
 func (r *Rule) String() string {
@@ -215,7 +218,7 @@ func (fp *FaultPlan) Decide(d *simnet.Datagram) simnet.Decision {
 			if fp.Net == nil {
 				continue
 			}
-			if p.Meta.Seq < p.Meta.UnAck || p.Meta.Seq > p.Meta.UnAck+2 {
+			if !r.ReflectAny && (p.Meta.Seq < p.Meta.UnAck || p.Meta.Seq > p.Meta.UnAck+2) {
 				continue
 			}
 			if fp.injected == nil {
